@@ -20,7 +20,7 @@ EXHAUSTIVE_NOTE = ("exhaustive over the single-fault space of each sampled workl
                    "of the rule where it applies (capped at 6 positions per fault kind and item shape); the workloads are sampled")
 TIERS = {
     "quick": {"runs": 208, "budget_s": 150, "chunk": 3, "max_shrink": 4, "shrink_each_s": 15, "shrink_budget_s": 60},
-    "thorough": {"runs": 12000, "budget_s": 3000, "chunk": 6, "max_shrink": 8, "shrink_each_s": 30, "shrink_budget_s": 300},
+    "thorough": {"runs": 14000, "budget_s": 3300, "chunk": 6, "max_shrink": 8, "shrink_each_s": 30, "shrink_budget_s": 300},
 }
 CHILD_TIMEOUT = {"quick": 30, "thorough": 60}
 RULE = ("one evaluation = one fault injected alone into a workload whose fault-free control run said FOUND; distinct = "
